@@ -410,8 +410,10 @@ class Sequencer(Client):
         elif op["mode"] == "repair":
             op["has_indel"] = rng.random() < 0.6
             op["heap"] = rng.choice(sim.prof["heaps"])
-            if len(edits) <= 2 and kind in ("NONE", "SUB", "INS", "DEL", "FIRST", "LASTWIN", "TRUNC", "EXTEND") \
-                    and rng.random() < 0.12:
+            if len(edits) <= 2 and kind in ("NONE", "SUB", "INS", "DEL", "FIRST", "LASTWIN", "TRUNC") \
+                    and rdesign is design and rstart == start and rng.random() < 0.12:
+                # an infinite heap limit is only given to reads with at most two errors on the writer's own graph and
+                # start vertex: with it the candidate product is unbounded by design (exponential in the detections)
                 op["heap"] = "inf"
         return op
 
@@ -454,7 +456,11 @@ class Reader(Client):
             ns = [op_n if op_n != "k+1" else sim.world.designs[op["design"]].k + 1 for op_n in CHECK_LENGTHS]
             for f in op["faults"]:
                 sim.stats.inc("faults", f)
-            return {"op": "SETVT", "strand": strand, "ns": ns, "faults": op["faults"]}
+            new = {"op": "SETVT", "strand": strand, "ns": ns, "faults": op["faults"]}
+            r = stream(sim.seed, "ntype/%d" % len(sim.ops))
+            if r.random() < 0.2:
+                new["ntype"] = r.choice(["int64", "int64", "int32", "int16", "uint8", "int8"])
+            return new
         return op
 
 
@@ -482,9 +488,14 @@ class Scanner(Client):
             body = "".join(rng.choice(M.NT) for _ in range(n)) if rng.random() < 0.7 else \
                 "".join(rng.choice("TGCA"[i % 4] + "A") for i in range(n))
             self.sim.stats.inc("probes", "c07:long-strand-formula")
-            return {"op": "SETVT", "strand": body, "ns": ns + [rng.choice([2, 3, 4, 6])], "faults": []}
+            long_op = {"op": "SETVT", "strand": body, "ns": ns + [rng.choice([2, 3, 4, 6])], "faults": []}
+            if rng.random() < 0.3:
+                long_op["ntype"] = rng.choice(["int64", "int32", "int16", "uint8"])
+            return long_op
         op = {"op": "VTSCAN", "design": mol.design, "start": mol.start, "strand": strand, "ns": ns,
               "bit_length": len(mol.bits) if mol.bits is not None else 2 * len(strand)}
+        if rng.random() < 0.15:
+            op["ntype"] = rng.choice(["int64", "int64", "int32", "int16", "uint8", "int8"])
         if rng.random() < 0.5 and len(strand) >= design.k:
             # cross-traffic: reads of neighbouring molecules are repaired / decoded against their own checks first
             op["traffic"] = rng.randint(1, 6)
